@@ -4,6 +4,9 @@ import (
 	"fmt"
 	"go/constant"
 	"go/token"
+	"go/types"
+	"golang.org/x/tools/go/packages"
+	"strings"
 
 	"golang.org/x/tools/go/ssa"
 
@@ -14,42 +17,118 @@ func init() {
 	register(&Rule{ID: "R-JSONKEY", Props: []string{"C10"}, Doc: "json.Parser.Next: where an object key is expected only a key (string followed by a colon), the object's end or an error is returned; State() reads the top of the stack", Run: runJSONKey})
 }
 
-// topStateFact: does the edge d -> p decide the top-of-stack state loaded at
-// entry? Returns (known, mayBeKey): known when the edge compares the top load
-// with a State constant; mayBeKey is false when the edge excludes ObjectKeyState.
-func topStateEdge(d, p *ssa.BasicBlock, objectKey int64) (known, excludesKey bool) {
-	iff, ok := lastInstr(d).(*ssa.If)
-	if !ok || len(p.Preds) != 1 {
-		return false, false
+// jsonStackField: the field of json.Parser that holds the container stack (by type: []State).
+func jsonStackField(pk *packages.Package) string {
+	obj, _ := pk.Types.Scope().Lookup("Parser").(*types.TypeName)
+	if obj == nil {
+		return ""
 	}
-	bo, ok := iff.Cond.(*ssa.BinOp)
-	if !ok || !isTopLoad(bo.X) {
-		return false, false
+	st, _ := obj.Type().Underlying().(*types.Struct)
+	if st == nil {
+		return ""
 	}
-	k, ok := bo.Y.(*ssa.Const)
-	if !ok || !ssaIntConst(k) {
-		return false, false
-	}
-	onTrue := d.Succs[0] == p && d.Succs[1] != p
-	onFalse := d.Succs[1] == p && d.Succs[0] != p
-	isKey := k.Int64() == objectKey
-	switch bo.Op {
-	case token.EQL:
-		if onTrue {
-			return true, !isKey // state == K
-		}
-		if onFalse {
-			return true, isKey // state != K
-		}
-	case token.NEQ:
-		if onTrue {
-			return true, isKey
-		}
-		if onFalse {
-			return true, !isKey
+	name := ""
+	for i := 0; i < st.NumFields(); i++ {
+		if sl, ok := st.Field(i).Type().Underlying().(*types.Slice); ok {
+			if n, ok := sl.Elem().(*types.Named); ok && n.Obj().Name() == "State" && n.Obj().Pkg() == pk.Types {
+				if name != "" {
+					return "" // ambiguous
+				}
+				name = st.Field(i).Name()
+			}
 		}
 	}
-	return false, false
+	return name
+}
+
+// isTopOfStack: v is p.<stack>[len(p.<stack>)-1], or a parameter that receives such a value at every call site.
+func isTopOfStack(r *core.Run, v ssa.Value, field string, depth int) bool {
+	if depth > 3 {
+		return false
+	}
+	if u, ok := v.(*ssa.UnOp); ok && u.Op == token.MUL {
+		if ia, ok := u.X.(*ssa.IndexAddr); ok && strings.HasSuffix(canon(ia.X), "."+field) {
+			l := linOf(ia.Index)
+			return len(l.T) == 1 && l.C == -1
+		}
+		return false
+	}
+	if args, ok := argsOfParam(r, v); ok {
+		for _, a := range args {
+			if !isTopOfStack(r, a, field, depth+1) {
+				return false
+			}
+		}
+		return true
+	}
+	return false
+}
+
+// jsonLeaf: one constant unit that json.Parser.Next can return, with the instruction that decides it.
+type jsonLeaf struct {
+	at   ssa.Instruction // the return (or the call site passing the constant) where the unit is chosen
+	unit int64
+}
+
+// unitLeaves enumerates the constant first results of fn, following calls to module functions that
+// compute the result and parameters back to the constants passed at the call sites.
+func unitLeaves(r *core.Run, fn *ssa.Function, depth int, undecided *[]ssa.Instruction) []jsonLeaf {
+	var out []jsonLeaf
+	if depth > 3 {
+		return out
+	}
+	var resolve func(v ssa.Value, at ssa.Instruction, d int)
+	resolve = func(v ssa.Value, at ssa.Instruction, d int) {
+		switch x := v.(type) {
+		case *ssa.Const:
+			if ssaIntConst(x) {
+				out = append(out, jsonLeaf{at: at, unit: x.Int64()})
+				return
+			}
+		case *ssa.Extract:
+			if c, ok := x.Tuple.(*ssa.Call); ok && x.Index == 0 {
+				if g := c.Call.StaticCallee(); g != nil && core.InModule(fnPkg(g)) && len(g.Blocks) > 0 && d < 3 {
+					out = append(out, unitLeaves(r, g, depth+1, undecided)...)
+					return
+				}
+			}
+		case *ssa.Call:
+			if g := x.Call.StaticCallee(); g != nil && core.InModule(fnPkg(g)) && len(g.Blocks) > 0 && d < 3 {
+				out = append(out, unitLeaves(r, g, depth+1, undecided)...)
+				return
+			}
+		case *ssa.Phi:
+			for i, e := range x.Edges {
+				resolve(e, lastInstr(x.Block().Preds[i]), d+1)
+			}
+			return
+		case *ssa.Parameter:
+			// the constant is chosen at the call sites
+			p := x.Parent()
+			idx := -1
+			for i, q := range p.Params {
+				if q == x {
+					idx = i
+				}
+			}
+			sites := callSitesOf(r, p)
+			if idx >= 0 && len(sites) > 0 && d < 3 {
+				for _, c := range sites {
+					resolve(c.Call.Args[idx], c, d+1)
+				}
+				return
+			}
+		}
+		*undecided = append(*undecided, at)
+	}
+	for _, b := range fn.Blocks {
+		ret, ok := lastInstr(b).(*ssa.Return)
+		if !ok || len(ret.Results) == 0 {
+			continue
+		}
+		resolve(ret.Results[0], ret, 0)
+	}
+	return out
 }
 
 func runJSONKey(r *core.Run) {
@@ -58,6 +137,11 @@ func runJSONKey(r *core.Run) {
 	pk := r.Prog.Pkg("json")
 	if fn == nil || stf == nil || pk == nil {
 		r.BrokenAnchor("json.Parser.Next / State")
+		return
+	}
+	field := jsonStackField(pk)
+	if field == "" {
+		r.BrokenAnchor("json.Parser field of type []State")
 		return
 	}
 	st := map[string]int64{}
@@ -82,66 +166,77 @@ func runJSONKey(r *core.Run) {
 			return
 		}
 	}
-	// blocks that store ObjectValueState to the top of the stack (the key path)
-	keyStore := map[*ssa.BasicBlock]bool{}
-	for _, b := range fn.Blocks {
-		for _, in := range b.Instrs {
-			if s, ok := in.(*ssa.Store); ok {
-				if c, isC := s.Val.(*ssa.Const); isC && ssaIntConst(c) && c.Int64() == st["ObjectValueState"] {
-					if ia, isIA := s.Addr.(*ssa.IndexAddr); isIA {
-						l := linOf(ia.Index)
-						if len(l.T) == 1 && l.C == -1 {
-							keyStore[b] = true
+	key := st["ObjectKeyState"]
+	excludesKey := func(a condAtom, _ *ssa.Function) bool {
+		x, y := a.x, a.y
+		if _, isC := x.(*ssa.Const); isC {
+			x, y = y, x
+		}
+		k, ok := y.(*ssa.Const)
+		if !ok || !ssaIntConst(k) || !isTopOfStack(r, x, field, 0) {
+			return false
+		}
+		switch a.op {
+		case token.EQL:
+			return k.Int64() != key
+		case token.NEQ:
+			return k.Int64() == key
+		}
+		return false
+	}
+	// does block b (or a dominator) store ObjectValueState to the top of the stack (the key path)?
+	storesValueState := func(at ssa.Instruction) bool {
+		for p := at.Block(); p != nil; p = p.Idom() {
+			for _, in := range p.Instrs {
+				if s, ok := in.(*ssa.Store); ok {
+					if c, isC := s.Val.(*ssa.Const); isC && ssaIntConst(c) && c.Int64() == st["ObjectValueState"] {
+						if ia, isIA := s.Addr.(*ssa.IndexAddr); isIA && strings.HasSuffix(canon(ia.X), "."+field) {
+							l := linOf(ia.Index)
+							if len(l.T) == 1 && l.C == -1 {
+								return true
+							}
 						}
 					}
 				}
 			}
 		}
+		return false
+	}
+	var undec []ssa.Instruction
+	leaves := unitLeaves(r, fn, 0, &undec)
+	for _, u := range undec {
+		r.Unknown("json.Parser.Next returns a computed GrammarType", u.Pos(), "the unit type is not a constant (directly, through a helper's result, or through a parameter bound to constants at every call site); the key-position rule cannot classify it")
 	}
 	n := 0
 	count := map[string]int{}
-	for _, b := range fn.Blocks {
-		ret, ok := lastInstr(b).(*ssa.Return)
-		if !ok || len(ret.Results) == 0 {
+	seen := map[ssa.Instruction]map[int64]bool{}
+	for _, lf := range leaves {
+		if seen[lf.at] == nil {
+			seen[lf.at] = map[int64]bool{}
+		}
+		if seen[lf.at][lf.unit] {
 			continue
 		}
-		c, isC := ret.Results[0].(*ssa.Const)
-		if !isC || !ssaIntConst(c) {
-			r.Unknown("json.Parser.Next returns a computed GrammarType", ret.Pos(), "the unit type is not a constant at this return; the key-position rule cannot classify it")
-			continue
-		}
-		name := gt[c.Int64()]
+		seen[lf.at][lf.unit] = true
+		name := gt[lf.unit]
 		if name == "ErrorGrammar" || name == "EndObjectGrammar" {
 			continue
 		}
 		n++
 		count[name]++
-		ok2 := false
-		for p := b; p != nil && !ok2; p = p.Idom() {
-			if keyStore[p] {
-				ok2 = true // the key path: the string is followed by a colon and the state becomes ObjectValueState
-				break
-			}
-			d := p.Idom()
-			if d == nil {
-				break
-			}
-			if known, excl := topStateEdge(d, p, st["ObjectKeyState"]); known && excl {
-				ok2 = true
-			}
-		}
-		r.Check(ok2, fmt.Sprintf("json.Parser.Next returns %s #%d only where no object key is expected", name, count[name]), ret.Pos(), "",
+		ok := storesValueState(lf.at) || holdsAt(r, lf.at, excludesKey, 0)
+		r.Check(ok, fmt.Sprintf("json.Parser.Next returns %s #%d only where no object key is expected", name, count[name]), lf.at.Pos(), "",
 			fmt.Sprintf("%s is returned on a path that has not excluded ObjectKeyState as the top state and is not the key path (string, colon, state := ObjectValueState): with an object open and a key expected, something that is not a string is accepted as a unit instead of being reported as a parse error (e.g. a container in key position: {{}} or {[1]:2})", name))
 	}
 	r.Floor("json non-error unit returns", n, 6)
 	// State() returns the top of the stack
 	okState := false
 	for _, b := range stf.Blocks {
-		if ret, ok := lastInstr(b).(*ssa.Return); ok && len(ret.Results) == 1 && isTopLoad(ret.Results[0]) {
+		if ret, ok := lastInstr(b).(*ssa.Return); ok && len(ret.Results) == 1 && isTopOfStack(r, ret.Results[0], field, 0) {
 			okState = true
 		}
 	}
-	r.Check(okState, "json.Parser.State returns the top of the state stack", stf.Pos(), "", "State() does not return p.state[len(p.state)-1]: it would not describe the innermost open container")
+	r.Check(okState, "json.Parser.State returns the top of the state stack", stf.Pos(), "", "State() does not return the last element of the container stack: it would not describe the innermost open container")
 }
 
 func ssaIntConst(c *ssa.Const) bool {
